@@ -105,6 +105,18 @@ def build(case):
     return net, out
 
 
+def tap_fx(net, t):
+    """tap position in 1/1000 steps; the projection keeps "is exactly at tap_min / tap_max" (the controllers test equality):
+    a float that merely ROUNDS to a limit is logged one unit away from it, on its own side"""
+    x = float(net[t[0]].tap_pos.at[t[1]])
+    v = int(round(x * 1000))
+    for col in ("tap_min", "tap_max"):
+        lim = float(net[t[0]][col].at[t[1]])
+        if x != lim and v == int(round(lim * 1000)):
+            v += 1 if x > lim else -1
+    return v
+
+
 def instrument(net, ctrls, log):
     """wrap the public controller methods of every INSTANCE (no repository change)"""
     import numpy as np
@@ -117,7 +129,7 @@ def instrument(net, ctrls, log):
         return NAN if math.isnan(x) else int(round(x * 1e6))
 
     def tap_of(t):
-        return int(round(float(net[t[0]].tap_pos.at[t[1]]) * 1000))
+        return tap_fx(net, t)
 
     for cid, ctrl, kind, t, bus in ctrls:
         def mk(cid=cid, ctrl=ctrl, kind=kind, t=t, bus=bus):
@@ -228,7 +240,7 @@ def observe(case):
             except Exception:  # noqa
                 x = float("nan")
             vm = NAN if math.isnan(x) else int(round(x * 1e6))
-            tp = int(round(float(net[t[0]].tap_pos.at[t[1]]) * 1000))
+            tp = tap_fx(net, t)
         fin.append({"vm": vm, "tap": tp, "conv": conv})
     fresh = 0
     if returned and not stub:
